@@ -5,9 +5,9 @@ import random
 import common as C
 
 COQ_FILES = ("Base/Bytes.v", "L2_Disc/Accept.v", "L4_Eval/RunSmall.v", "L2_Disc/AcceptProofs.v", "L2_Disc/MiniPy.v", "L2_Disc/Visitors.v",
-             "L2_Disc/DiscCheck.v", "L2_Disc/DiscProofs.v", "Properties/C14.v", "Properties/C14b.v")
-PROPERTY_FILES = ("C14", "C14b")
-EXTRACTED = ("ConstAccept",)
+             "L2_Disc/DiscCheck.v", "L2_Disc/DiscProofs.v", "Properties/C14.v", "Properties/C14b.v", "Base/PyRt.v", "Extracted/GenAccept.v", "L2_Disc/GenAcceptProofs.v", "Properties/C14g.v")
+PROPERTY_FILES = ("C14", "C14b", "C14g")
+EXTRACTED = ("ConstAccept", "GenAccept")
 ALLOWED_AXIOMS = ()
 
 PRELUDE = """From Coq Require Import List String.
